@@ -15,6 +15,7 @@ func init() {
 	register(&Spec{
 		ID: "C13",
 		Explanation: "Decides: R1 ordered scan — Group.ServeHTTP ranges ascending over the router list, the accepting router's serveContext runs and the function returns (no later router is tried), Add appends at the end; R2 after a rejection every path to the next matcher / to the not-found call resets the context and restores the request path from the value saved before that matcher ran; R3 the built-in version matchers write to the request or the context only on paths that return true; R4 the not-found call uses the group's (wrapped) not-found handler, Add refuses duplicate names before appending; R5 Add stores the given matcher into the router on every returning path, Use wraps the group's not-found handler on every path; R6 (= C07.R3d/e) the pooled context is released once and not used afterwards; R10 AndMatcher / OrMatcher are evaluated symbolically: all / any members, each asked with the request and the context of the call, and the *Func variants forward to the combinator of the same name. " +
+			"R15 (= C01.R1) the route search deletes only what it wrote: a matcher's parameter survives. " +
 			"Not decided: semantics of user-supplied matchers.",
 		Assumptions: commonAssumptions,
 		Run: func(c *Ctx) {
@@ -32,11 +33,14 @@ func init() {
 			ruleEntryConditionBelongsToTheGroup(c, "R12")
 			ruleParamWriters(c, "R13")
 			ruleCallersSlicesAreNotRetained(c, "R14", "Matcher")
+			ruleBacktrackUndo(c, "R15")
 		},
 	})
 	register(&Spec{
 		ID: "C14",
 		Explanation: "Decides: R1 normalisation agreement — every string the Hosts methods pass into their private tree (Add pattern, Delete pattern, the path looked up by Match) is the result of strings.ToLower; R2 index coherence of the shared tree code (= C03.R1/R2); R3 the port cut is behind `i != -1` and validOptionalPort of the cut text, bracket stripping behind both HasPrefix '[' and HasSuffix ']'. " +
+			"R11 (= C02.R3) stable sort by priority after every insertion. " +
+			"R12 (= C03.R17) the sort key reads only the segment; R13 (= C06.R5) the lock option reaches the tree. " +
 			"Not decided: correctness of the normalisation for every Host string; resolution semantics (C02).",
 		Assumptions: commonAssumptions,
 		Run: func(c *Ctx) {
@@ -54,11 +58,15 @@ func init() {
 			ruleReadersWriteNothing(c, "R9", "hosts", "tree")
 			ruleHostsVerdictIsLookup(c, "R10")
 			ruleHostsPatternsOnlyLowered(c, "R1b")
+			ruleSortAfterInsert(c, "R11")
+			ruleSortKeyIsFixedAtInsertion(c, "R12")
+			ruleLockOptionReachesTree(c, "R13")
 		},
 	})
 	register(&Spec{
 		ID: "C15",
 		Explanation: "Decides: R1 one version value — in the path-version matcher the prefix tested is the listed version, the text removed and the value recorded are the same version without its trailing '/', the removal is TrimPrefix of the original path, the recording is guarded by the parameter name only, the first listed hit returns; the constructor stores only versions that went through both normalisation steps; R2 both matchers write only on accepting paths (= C13.R3); R3 the header-version matcher accepts and records only on equality with the configured parameter of the parsed media type, the parse-error edge returns false; R4 the version lists keep the order in which they were given (first listed wins). " +
+			"R8 (= C07.R3e) the pooled context is released once and untouched afterwards, deferred calls included. " +
 			"Not decided: mime.ParseMediaType semantics.",
 		Assumptions: commonAssumptions,
 		Run: func(c *Ctx) {
@@ -69,6 +77,7 @@ func init() {
 			ruleReadersWriteNothing(c, "R5", "hosts")
 			ruleConstructorsOwnTheirLists(c, "R6")
 			ruleHeaderVersionLookup(c, "R7")
+			rulePoolReleaseOnce(c, "R8")
 		},
 	})
 }
